@@ -320,7 +320,7 @@ func (w *world) cellCalls(chain []winSpec) {
 
 // ---- text helpers ------------------------------------------------------------------------
 
-var textAlphabet = []string{"a", "世", "é", " ", "\t", "\n"}
+var textAlphabet = []string{"a", "世", "e\u0301", " ", "\t", "\n"}
 var textNames = []string{"a", "世", "é", "SP", "TAB", "LF"}
 
 type cluster struct {
